@@ -564,7 +564,19 @@ Definition pred_c14 (g : ghost) (w : world) (a : action) (O : oracle) (w' : worl
           else
             (* the state is spent by a matching callback whose response is written *)
             (if (io_status i =? 0) || negb (ahas k_oauth_state (io_sess i)) then [] else [1143]) ++
-            (if negb (bempty (aget f_error (q_query r))) && negb (obytes_eq (uid_in sess) (uid_in (io_sess i))) then [1144] else [])
+            (if negb (bempty (aget f_error (q_query r))) && negb (obytes_eq (uid_in sess) (uid_in (io_sess i))) then [1144] else []) ++
+            (* a callback that logs somebody in names precisely the (route's provider, provider-reported uid)
+               pair, and storage holds that pair under that identifier *)
+            (if obytes_eq (uid_in sess) (uid_in (io_sess i)) then [] else
+             match uid_in (io_sess i) with
+             | None => []
+             | Some U =>
+                 (if beqb U (make_oauth2_pid prov (pa_uid (o_provider O))) then [] else [1145]) ++
+                 match iuser_of i U with
+                 | Some u' => if beqb (u_oprov u') prov && beqb (u_ouid u') (pa_uid (o_provider O)) then [] else [1146]
+                 | None => [1146]
+                 end
+             end)
       | _ => []
       end
   | _ => []
